@@ -10,7 +10,7 @@ MONITORS = ['c05', 'c05-transparent', 'c05-status']
 
 
 def run(ctx):
-    return pm_prop.run_pm(ctx, ALPHABET, MONITORS, k_quick=4, k_thorough=5)
+    return pm_prop.run_pm(ctx, ALPHABET, MONITORS, k_quick=4, k_thorough=5, listeners=True)
 
 
 def replay(ctx, failure):
